@@ -52,7 +52,7 @@ class _Watchdog(Exception):
     pass
 
 
-def run_case(seed, stage=None, extra=None, limit=240):
+def run_case(seed, stage=None, extra=None, limit=120):
     """run_case_inner under an alarm: a priorized fit that does not come back is a failure, not a hang"""
     import signal
 
@@ -276,11 +276,11 @@ def itergen_case(seed):
     def _alarm(*a):
         raise TimeoutError()
     old = signal.signal(signal.SIGALRM, _alarm)
-    signal.alarm(20)
+    signal.alarm(10)
     try:
         groups = list(island_itergen(cat))
     except TimeoutError:
-        return [("itergen.terminates", "island_itergen did not finish in 20 s on islands %s in row order %s" % (nums, [s.island for s in given]))]
+        return [("itergen.terminates", "island_itergen did not finish in 10 s on islands %s in row order %s" % (nums, [s.island for s in given]))]
     finally:
         signal.alarm(0)
         signal.signal(signal.SIGALRM, old)
@@ -296,7 +296,7 @@ def itergen_case(seed):
     return []
 
 
-def _small_with_alarm(seed, limit=240):
+def _small_with_alarm(seed, limit=120):
     import signal
 
     def onalarm(signum, frame):
